@@ -172,6 +172,7 @@ def check_prepared(res, facts):
     the by-value form: Projective is Jacobian, the G2 line-function helper type is homogeneous.)"""
     rule = res.rule("R-PREPARED", "From<Projective> / From<&_> for G1Prepared / G2Prepared delegate to into_affine() and the affine constructor", 20)
     NT = DF.TRANSPARENT - {"into"}
+    r2 = res.rule("R-PREPARED.input", "From<Affine> for G1Prepared / G2Prepared never substitutes Default::default() / generator() for (an arm of) its input", 8)
     for f in facts.fns(unit="ws", crate="ark_ec"):
         if f.kind == "Closure" or f.name != "from":
             continue
@@ -184,6 +185,16 @@ def check_prepared(res, facts):
         model = slf.split("::models::", 1)[1].split("::", 1)[0]
         key = "ark_ec|%s::%s<-%s%s" % (model, slf.rsplit("::", 1)[-1].split("<")[0], "&" if src.startswith("&") else "", "Projective" if "group::Projective<" in src else "Affine")
         if by_value_affine:
+            # the one real constructor: its result is built from the argument on every path.  `Default` of every prepared
+            # type is the prepared GENERATOR, so `Self::default()` / `generator()` on an input arm (say, for the point at
+            # infinity) makes e(O, Q) = e(G, Q) != 1
+            k2 = "ark_ec|%s::%s<-Affine|no-default" % (model, slf.rsplit("::", 1)[-1].split("<")[0])
+            hosts = [f] + [c for c in facts.fns(unit="ws", crate="ark_ec") if c.kind == "Closure" and c.id.startswith(f.id + "::{closure")]
+            alien = sorted({t["f"].get("name") for h in hosts for _, t in h.calls() if t["f"].get("name") in ("default", "generator")})
+            if alien:
+                r2.bad(k2, "the affine constructor calls %s: the prepared default is the prepared generator, so the input arm that takes it (the point at infinity) is paired as if it were the generator -- e(O, Q) != 1" % alien, f.loc)
+            else:
+                r2.ok(k2, "result built from the argument only", f.loc)
             continue
         ret = DF.expr(f, {"c": 0}, depth=20, transparent=NT)
         ok = False
@@ -198,6 +209,72 @@ def check_prepared(res, facts):
         (rule.ok if ok else rule.bad)(key, "delegates to the affine constructor" if ok else "conversion is computed as %s instead of delegating to into_affine() and the affine constructor: twins of one conversion can disagree (Projective is Jacobian: x/z^2, y/z^3)" % DF.show(ret)[:200], f.loc)
 
 
+def check_signfix(res, facts):
+    """Optimal-ate Miller loops run over |x| (resp. |loop count|); for a negative parameter the accumulated value has to be
+    inverted (conjugated: it lies in the cyclotomic subgroup after the easy part, and the final exponentiation kills the
+    difference) before it is returned.  Must-pass-through: every path of multi_miller_loop from entry to the normal return
+    passes the test of the sign constant, and the inversion is control dependent on its true arm -- in the serial and in
+    the parallel build (an early return for large batches that skips it computes e(P,Q)^-1 for those batches only)."""
+    rule = res.rule("R-SIGNFIX", "every return path of multi_miller_loop passes the sign test of the loop parameter, whose true arm inverts the accumulator (serial and parallel builds)", 8)
+    FLAGS = {"bls12::Bls12Config": ("X_IS_NEGATIVE",), "bn::BnConfig": ("X_IS_NEGATIVE",),
+             "bw6::BW6Config": ("ATE_LOOP_COUNT_1_IS_NEGATIVE", "ATE_LOOP_COUNT_2_IS_NEGATIVE")}
+    INV = ("cyclotomic_inverse_in_place", "cyclotomic_inverse", "conjugate_in_place", "inverse_in_place", "inverse")
+
+    def gates(fn, flag, depth=1):
+        """(blocks every one of which tests the flag or calls a helper that always does, blocks of fn itself with the switch)"""
+        own = []
+        for i, b in enumerate(fn.bbs):
+            if b["t"]["k"] == "switch":
+                k = DF.direct_const(fn, b["t"]["o"])
+                if k and (k.get("def") or "").endswith("::" + flag):
+                    own.append(i)
+        via = []
+        if depth:
+            for bb, t, callee in DF.local_callees(facts, fn):
+                g, o = gates(callee, flag, depth - 1)
+                if g and not callee.can_reach_exit_avoiding(0, set(g)) and fixes(callee, o, flag):
+                    via.append(bb)
+        return own + via, own
+
+    def fixes(fn, own, flag):
+        """the inversion is control dependent on the true arm of (one of) the flag switches"""
+        if not own:
+            return True      # delegated entirely to helpers, each checked on its own
+        cd = DF.control_deps(fn)
+        for bb, t in fn.calls():
+            if t["f"].get("name") not in INV:
+                continue
+            todo, seen = [bb], set()
+            while todo:
+                x = todo.pop()
+                for (sw, succ) in cd.get(x, ()):
+                    if (sw, succ) in seen:
+                        continue
+                    seen.add((sw, succ))
+                    todo.append(sw)
+                    if sw in own and succ == fn.bbs[sw]["t"]["else"]:
+                        return True
+        return False
+    for unit in ("ws", "par"):
+        for fn in facts.fns(unit=unit, crate="ark_ec"):
+            if fn.name != "multi_miller_loop" or fn.kind == "Closure" or not fn.default_of:
+                continue
+            model = next((m for m in FLAGS if fn.default_of.endswith(m)), None)
+            if model is None:
+                continue
+            for flag in FLAGS[model]:
+                key = "ark_ec|%s|%s|%s" % (unit, model.split("::")[-1], flag)
+                g, own = gates(fn, flag)
+                if not g:
+                    rule.bad(key, "multi_miller_loop never tests %s: for a negative loop parameter the Miller value is the inverse of the pairing's" % flag, fn.loc)
+                elif fn.can_reach_exit_avoiding(0, set(g)):
+                    rule.bad(key, "a path of multi_miller_loop returns without passing the %s test: on that path (an early return / a batch-size or feature-dependent arm) the accumulator is not inverted for a negative loop parameter, so those inputs yield e(P,Q)^-1" % flag, fn.loc)
+                elif not fixes(fn, own, flag):
+                    rule.bad(key, "no inversion of the accumulator on the true arm of the %s test" % flag, fn.loc)
+                else:
+                    rule.ok(key, "every return path passes the %s test; inversion on its true arm" % flag, fn.loc)
+
+
 def run(ctx, res):
     facts = ctx.facts(UNITS)
     res.analysed = facts.stats()
@@ -208,6 +285,7 @@ def run(ctx, res):
     check_finalexp(res, facts)
     check_scalar(res, facts)
     check_prepared(res, facts)
+    check_signfix(res, facts)
     from rules import c06_finalexp
     from arklib.configs import Registry
     c06_finalexp.check_exponent(res, facts, Registry(facts, ("ws", "curves")))
